@@ -2,17 +2,15 @@ import FranzVerif.Model.C34
 import FranzVerif.Proof.C34
 /-! C34 — property theorems: kfake's ACL decisions against Apache Kafka's authorizer.
 
-`Model.C34` transcribes `pkg/kfake/acl.go` as it is; `Model.C34.Spec` transcribes Kafka's
-`StandardAuthorizer.authorize` and `authorizeByResourceType`. The full property is
+`Model.C34` transcribes `pkg/kfake/acl.go` as it is (after /repo 46d17aa, which repaired `anyAllowed`);
+`Model.C34.Spec` transcribes Kafka's `StandardAuthorizer.authorize` and `authorizeByResourceType`. The property is
 
-    (1) ∀ acls q,  allowed acls q    = Spec.authorizeAcls acls q            (and with the super-user glue)
-    (2) ∀ acls q,  anyAllowed acls q = Spec.byTypeAcls acls q               (and with the super-user glue)
+    (1) ∀ acls q,  allowed acls q    = Spec.authorizeAcls acls q     (entries of Kafka's domain; with the super-user glue)
+    (2) ∀ acls q,  anyAllowed acls q = Spec.byTypeAcls acls q        (no hypothesis; with the super-user glue)
 
-over entries of Kafka's domain (`Acl.WF`). (1) is proved. (2) is FALSE of the current code
-(`anyAllowed_ne_authorizeByResourceType`): `anyAllowed` returns true on the first matching ALLOW and never consults
-DENY entries. What is proved of (2): equality whenever no DENY entry is relevant to the request
-(`anyAllowed_eq_partial`), that the error is one-sided (`anyAllowed_complete`), and that the proposed repair
-satisfies (2) for every ACL list (`anyAllowedRepaired_eq`). -/
+Both are proved at full strength, for ACL lists of any length over any names. History: before 46d17aa, (2) was false
+(`anyAllowed` returned true on the first matching ALLOW and never consulted DENY entries); the old counterexamples
+are kept below as regression `example`s and in corpus/C34. -/
 namespace Props.C34
 open Model.C34 Proof.C34
 
@@ -56,86 +54,63 @@ theorem acls_disabled (c : Cfg) (user host name : Str) (rtype op : Nat) (h : c.e
     allowedACL c user host name rtype op = true ∧ anyAllowedACL c user host rtype op = true := by
   simp [allowedACL, anyAllowedACL, h]
 
-/-- **(2), the part that holds** (`…_partial`: the full statement drops the hypothesis `nd`). If no DENY entry is
-relevant to the request (same resource type, matching principal and host, same operation or ALL), kfake's
-`anyAllowed` is Kafka's `authorizeByResourceType`, for operations that no other operation implies. -/
-theorem anyAllowed_eq_partial (acls : List Acl) (q : Req) (wf : ∀ a ∈ acls, a.WF) (hop : notImplied q.op)
-    (nd : ∀ a ∈ acls, Spec.byTypeRelevant a q = true → a.perm ≠ permDeny) :
+/-- **(2)** For every ACL list and every request — no hypothesis on the entries (entries outside Kafka's domain are
+dropped by the code exactly as Kafka's rule ignores them) and for every operation (the repaired code compares the
+operation with the entry's operation and ALL only, like Kafka; implied operations play no role): kfake's `anyAllowed`
+is Kafka's `authorizeByResourceType` below the super-user test. A relevant DENY on the literal `*` denies; a literal
+ALLOW counts unless a relevant DENY has the same literal name or a non-empty DENY prefix of it; a prefixed ALLOW counts
+unless a non-empty DENY prefix of it exists; an ALLOW on the literal `*` always counts. -/
+theorem anyAllowed_eq_authorizeByResourceType (acls : List Acl) (q : Req) :
     anyAllowed acls q = Spec.byTypeAcls acls q := by
-  rw [Bool.eq_iff_iff, anyAllowed_iff, byType_noDeny acls q nd]
-  constructor
-  · rintro ⟨a, ha, h1, h2, h3, h4, h5⟩
-    refine ⟨a, ha, ?_, h5, (wf a ha).2⟩
-    rw [opMatches_notImplied a q.op hop] at h4
-    simp only [Spec.byTypeRelevant, Bool.and_eq_true, beq_iff_eq]
-    exact ⟨⟨⟨h1, h3⟩, h2⟩, by simpa using h4⟩
-  · rintro ⟨a, ha, hr, hp, _⟩
-    obtain ⟨h1, h2, h3, h4⟩ := relevant_matches a q hr
-    exact ⟨a, ha, h1, h2, h3, h4, hp⟩
+  rw [anyAllowed_eq_filter, anyAllowedFilter_eq]
 
+/-- non-vacuity and regression: the ACL sets on which the code before 46d17aa answered `true` (DESIGN §8-b: wildcard
+DENY, DENY on the same literal, DENY on a dominating prefix, prefixed/prefixed under DENY ALL) are denied now, and the
+undominated neighbours are still allowed. -/
 example :
-    let acls : List Acl := [⟨userStar, star, 2, [97], 4, 2, 3⟩, ⟨userStar, star, 3, star, 3, 4, 2⟩]
-    let q : Req := ⟨userPfx ++ [97], [104], [], 2, 4⟩
-    (∀ a ∈ acls, a.WF) ∧ notImplied q.op ∧ (∀ a ∈ acls, Spec.byTypeRelevant a q = true → a.perm ≠ permDeny) ∧
-      anyAllowed acls q = true := by decide
-
-/-- kfake's error is one-sided, for every ACL list: whatever Kafka's `authorizeByResourceType` allows, `anyAllowed` allows. -/
-theorem anyAllowed_complete (acls : List Acl) (q : Req) (h : Spec.byTypeAcls acls q = true) :
-    anyAllowed acls q = true := by
-  obtain ⟨a, ha, hr, hp⟩ := byType_true_exists acls q h
-  obtain ⟨h1, h2, h3, h4⟩ := relevant_matches a q hr
-  exact (anyAllowed_iff acls q).2 ⟨a, ha, h1, h2, h3, h4, hp⟩
-
-/-- non-vacuity: Kafka allows (the DENY on `b` does not dominate the ALLOW on prefix `a`), and so does kfake. -/
-example :
-    let acls : List Acl := [⟨userStar, star, 2, [98], 3, 4, 2⟩, ⟨userStar, star, 2, [97], 4, 4, 3⟩]
-    Spec.byTypeAcls acls ⟨userPfx ++ [97], [104], [], 2, 4⟩ = true ∧ anyAllowed acls ⟨userPfx ++ [97], [104], [], 2, 4⟩ = true := by
-  decide
-
-/-- **(2) is false of the code as it is.** Witness: `ALLOW User:a * Write topic a (literal)` together with
-`DENY User:a * Write topic * (literal)`; request `User:a` from host `h`, WRITE on some TOPIC: kfake allows, Kafka denies. -/
-theorem anyAllowed_ne_authorizeByResourceType :
-    ¬ ∀ (acls : List Acl) (q : Req), (∀ a ∈ acls, a.WF) → notImplied q.op → anyAllowed acls q = Spec.byTypeAcls acls q := by
-  intro h
-  have := h [⟨userPfx ++ [97], star, 2, [97], 3, 4, 3⟩, ⟨userPfx ++ [97], star, 2, star, 3, 4, 2⟩]
-    ⟨userPfx ++ [97], [104], [], 2, 4⟩ (by decide) (by decide)
-  revert this
-  decide
-
-/-- The same three shapes as DESIGN §8-b (wildcard DENY, DENY on the same literal, DENY on a dominating prefix)
-and the prefixed/prefixed shape: kfake allows all four, Kafka denies all four. -/
-theorem anyAllowed_ignores_deny_witnesses :
     let u : Str := userPfx ++ [97]
     let q : Req := ⟨u, [104], [], 2, 4⟩
     let allowFoo : Acl := ⟨u, star, 2, [102, 111, 111], 3, 4, 3⟩
-    (anyAllowed [allowFoo, ⟨u, star, 2, star, 3, 4, 2⟩] q = true ∧ Spec.byTypeAcls [allowFoo, ⟨u, star, 2, star, 3, 4, 2⟩] q = false) ∧
-    (anyAllowed [allowFoo, ⟨u, star, 2, [102, 111, 111], 3, 4, 2⟩] q = true ∧ Spec.byTypeAcls [allowFoo, ⟨u, star, 2, [102, 111, 111], 3, 4, 2⟩] q = false) ∧
-    (anyAllowed [allowFoo, ⟨u, star, 2, [102], 4, 4, 2⟩] q = true ∧ Spec.byTypeAcls [allowFoo, ⟨u, star, 2, [102], 4, 4, 2⟩] q = false) ∧
-    (anyAllowed [⟨u, star, 2, [102, 111], 4, 4, 3⟩, ⟨u, star, 2, [102], 4, 2, 2⟩] q = true ∧
-      Spec.byTypeAcls [⟨u, star, 2, [102, 111], 4, 4, 3⟩, ⟨u, star, 2, [102], 4, 2, 2⟩] q = false) := by decide
+    anyAllowed [allowFoo, ⟨u, star, 2, star, 3, 4, 2⟩] q = false ∧
+    anyAllowed [allowFoo, ⟨u, star, 2, [102, 111, 111], 3, 4, 2⟩] q = false ∧
+    anyAllowed [allowFoo, ⟨u, star, 2, [102], 4, 4, 2⟩] q = false ∧
+    anyAllowed [⟨u, star, 2, [102, 111], 4, 4, 3⟩, ⟨u, star, 2, [102], 4, 2, 2⟩] q = false ∧
+    anyAllowed [allowFoo] q = true ∧
+    anyAllowed [allowFoo, ⟨u, star, 2, [98], 4, 4, 2⟩] q = true ∧                 -- DENY on another prefix
+    anyAllowed [⟨u, star, 2, [102, 111], 4, 4, 3⟩, ⟨u, star, 2, [102, 111, 111], 4, 4, 2⟩] q = true ∧   -- DENY below the ALLOW prefix
+    anyAllowed [⟨u, star, 2, star, 3, 4, 3⟩, ⟨u, star, 2, [102], 4, 4, 2⟩] q = true := by decide       -- ALLOW * survives a prefix DENY
 
-/-- Why (2) is stated for operations that nothing implies: `anyAllowed` applies implied operations (ALLOW READ
-counts for DESCRIBE), Kafka's `authorizeByResourceType` compares the operation with the entry's operation and ALL
-only. No kfake request handler (and no Kafka request) asks the any-resource question for DESCRIBE. -/
-theorem anyAllowed_implied_op_differs :
-    anyAllowed [⟨userStar, star, 2, [97], 3, 3, 3⟩] ⟨userPfx ++ [97], [104], [], 2, 8⟩ = true ∧
-    Spec.byTypeAcls [⟨userStar, star, 2, [97], 3, 3, 3⟩] ⟨userPfx ++ [97], [104], [], 2, 8⟩ = false := by decide
+/-- regression: implied operations play no role in the any-resource check (before 46d17aa an ALLOW READ counted for
+DESCRIBE; Kafka's `authorizeByResourceType` never did), and malformed entries are dropped: an "ALLOW" with pattern type
+MATCH(2) does not count, a permission value other than ALLOW/DENY does nothing. -/
+example :
+    anyAllowed [⟨userStar, star, 2, [97], 3, 3, 3⟩] ⟨userPfx ++ [97], [104], [], 2, 8⟩ = false ∧
+    anyAllowed [⟨userStar, star, 2, [97], 2, 4, 3⟩] ⟨userPfx ++ [97], [104], [], 2, 4⟩ = false ∧
+    anyAllowed [⟨userStar, star, 2, [97], 3, 4, 0⟩] ⟨userPfx ++ [97], [104], [], 2, 4⟩ = false ∧
+    anyAllowed [⟨userStar, star, 2, [97], 3, 4, 3⟩, ⟨userStar, star, 2, [97], 1, 4, 2⟩] ⟨userPfx ++ [97], [104], [], 2, 4⟩ = true := by
+  decide
 
-/-- (2) with the glue of `anyAllowedACL`, under the same hypothesis as `anyAllowed_eq_partial`. -/
-theorem anyAllowedACL_eq_partial (c : Cfg) (user host : Str) (rtype op : Nat)
-    (en : c.enableACLs = true) (wf : ∀ a ∈ c.acls, a.WF) (na : c.noAnonSuper) (hop : notImplied op)
-    (nd : ∀ a ∈ c.acls, Spec.byTypeRelevant a ⟨principal user, host, [], rtype, op⟩ = true → a.perm ≠ permDeny) :
+/-- **(2) with the glue of `anyAllowedACL`**: with ACLs enabled a super user passes, everybody else gets Kafka's
+by-resource-type decision for `principal user`. `noAnonSuper` is still needed: `principal "" = principal "ANONYMOUS"`,
+so with one of them configured as a super user kfake (user names) and Kafka (principals) identify different requests
+as super users. No well-formedness hypothesis is needed here. -/
+theorem anyAllowedACL_eq_authorizeByResourceType (c : Cfg) (user host : Str) (rtype op : Nat)
+    (en : c.enableACLs = true) (na : c.noAnonSuper) :
     anyAllowedACL c user host rtype op
       = Spec.authorizeByResourceType (c.superusers.map principal) c.acls ⟨principal user, host, [], rtype, op⟩ := by
   unfold anyAllowedACL Spec.authorizeByResourceType isSuperuser
   simp only [en, Bool.not_true, Bool.false_eq_true, if_false]
-  rw [supers_contains c.superusers user na.1 na.2, anyAllowed_eq_partial _ _ wf hop nd]
+  rw [supers_contains c.superusers user na.1 na.2, anyAllowed_eq_authorizeByResourceType]
 
-/-- The ACL test of `handleInitProducerID` is Kafka's (`KafkaApis.handleInitProducerIdRequest`) when no DENY entry
-is relevant to "WRITE on some TOPIC"; with a transactional id it is Kafka's unconditionally. -/
-theorem initProducerID_eq_partial (c : Cfg) (user host : Str) (txn : Option Str)
-    (en : c.enableACLs = true) (wf : ∀ a ∈ c.acls, a.WF) (na : c.noAnonSuper)
-    (nd : txn = none → ∀ a ∈ c.acls, Spec.byTypeRelevant a ⟨principal user, host, [], rtTopic, opWrite⟩ = true → a.perm ≠ permDeny) :
+example : (⟨true, [[97, 100]], [⟨userStar, star, 2, star, 3, 2, 2⟩]⟩ : Cfg).noAnonSuper ∧
+    anyAllowedACL ⟨true, [[97, 100]], [⟨userStar, star, 2, star, 3, 2, 2⟩]⟩ [97, 100] [104] 2 4 = true ∧
+    anyAllowedACL ⟨true, [[97, 100]], [⟨userStar, star, 2, star, 3, 2, 2⟩]⟩ [97] [104] 2 4 = false := by decide
+
+/-- **The ACL test of `handleInitProducerID` is Kafka's** (`KafkaApis.handleInitProducerIdRequest`): WRITE on the
+transactional id, or IDEMPOTENT_WRITE on the cluster, or WRITE on some topic. `wf` is needed only by the `authorize`
+halves (an entry with a permission value other than ALLOW/DENY counts as an ALLOW in `allowed`). -/
+theorem initProducerID_eq (c : Cfg) (user host : Str) (txn : Option Str)
+    (en : c.enableACLs = true) (wf : ∀ a ∈ c.acls, a.WF) (na : c.noAnonSuper) :
     initProducerIDAuthorized c user host txn
       = Spec.initProducerID (c.superusers.map principal) c.acls (principal user) host txn := by
   cases txn with
@@ -143,35 +118,26 @@ theorem initProducerID_eq_partial (c : Cfg) (user host : Str) (txn : Option Str)
   | none =>
     simp only [initProducerIDAuthorized, Spec.initProducerID, allowedClusterACL,
       allowedACL_eq_authorize c user host _ _ _ en wf na,
-      anyAllowedACL_eq_partial c user host _ _ en wf na (by decide) (nd rfl)]
+      anyAllowedACL_eq_authorizeByResourceType c user host _ _ en na]
     simp
 
-/-- non-vacuity: user `a` has no IDEMPOTENT_WRITE on the cluster but may WRITE topic `t`, no DENY around: accepted;
-user `b` has nothing: refused; with a transactional id the decision is the WRITE permission on that id. -/
+/-- non-vacuity: user `a` has no IDEMPOTENT_WRITE on the cluster but may WRITE topic `t`: accepted; once a DENY on
+prefix `t` for everybody is added, refused; user `b` has nothing: refused; with a transactional id the decision is the
+WRITE permission on that id. -/
 example :
-    let c : Cfg := ⟨true, [[97, 100]], [⟨userPfx ++ [97], star, 2, [116], 3, 4, 3⟩, ⟨userPfx ++ [97], star, 5, [120], 4, 4, 3⟩]⟩
-    c.noAnonSuper ∧ (∀ a ∈ c.acls, a.WF) ∧
-    (∀ a ∈ c.acls, Spec.byTypeRelevant a ⟨principal [97], [104], [], rtTopic, opWrite⟩ = true → a.perm ≠ permDeny) ∧
-    initProducerIDAuthorized c [97] [104] none = true ∧ initProducerIDAuthorized c [98] [104] none = false ∧
+    let acls : List Acl := [⟨userPfx ++ [97], star, 2, [116], 3, 4, 3⟩, ⟨userPfx ++ [97], star, 5, [120], 4, 4, 3⟩]
+    let c : Cfg := ⟨true, [[97, 100]], acls⟩
+    let c' : Cfg := ⟨true, [[97, 100]], acls ++ [⟨userStar, star, 2, [116], 4, 2, 2⟩]⟩
+    c.noAnonSuper ∧ (∀ a ∈ c.acls, a.WF) ∧ (∀ a ∈ c'.acls, a.WF) ∧
+    initProducerIDAuthorized c [97] [104] none = true ∧ initProducerIDAuthorized c' [97] [104] none = false ∧
+    initProducerIDAuthorized c [98] [104] none = false ∧
     initProducerIDAuthorized c [97] [104] (some [120, 49]) = true ∧ initProducerIDAuthorized c [97] [104] (some [121]) = false := by
   decide
 
-/-- **The proposed repair satisfies (2) for every ACL list and request** (no hypotheses): `anyAllowedRepaired`
-(the loop of `anyAllowed` that also collects the relevant DENY entries, compares the operation with the entry's
-operation and ALL only, and lets an ALLOW count only if it is not dominated) is Kafka's `authorizeByResourceType`. -/
-theorem anyAllowedRepaired_eq (acls : List Acl) (q : Req) :
-    anyAllowedRepaired acls q = Spec.byTypeAcls acls q :=
-  anyAllowedRepaired_eq' acls q
-
-example :
-    let u : Str := userPfx ++ [97]
-    let q : Req := ⟨u, [104], [], 2, 4⟩
-    anyAllowedRepaired [⟨u, star, 2, [102, 111, 111], 3, 4, 3⟩, ⟨u, star, 2, [102], 4, 4, 2⟩] q = false ∧
-    anyAllowedRepaired [⟨u, star, 2, [102, 111, 111], 3, 4, 3⟩, ⟨u, star, 2, [98], 4, 4, 2⟩] q = true := by decide
-
 /-- Which Kafka rule is meant: the default `Authorizer.authorizeByResourceType` that `StandardAuthorizer` inherits
 first probes `authorize` on the literal resource "hardcode"; for operations that nothing implies the probe never
-changes the answer, so the `AclAuthorizer` form used as the Spec is also `StandardAuthorizer`'s answer. -/
+changes the answer, so the `AclAuthorizer` form used as the Spec is also `StandardAuthorizer`'s answer there
+(Kafka itself only asks for WRITE). The hypothesis is about Kafka's two implementations, not about kfake. -/
 theorem hardcode_probe_redundant (supers : List Str) (acls : List Acl) (q : Req) (hop : notImplied q.op) :
     Spec.authorizeByResourceTypeStd supers acls q = Spec.authorizeByResourceType supers acls q :=
   hardcode_probe_redundant' supers acls q hop
